@@ -15,11 +15,11 @@ import (
 type SExpr interface{ String() string }
 
 type (
-	SIdent  struct{ Name string }
-	SInt    struct{ V string }
-	SStr    struct{ V string }
-	SBool   struct{ V bool }
-	SUnary  struct {
+	SIdent struct{ Name string }
+	SInt   struct{ V string }
+	SStr   struct{ V string }
+	SBool  struct{ V bool }
+	SUnary struct {
 		Op string
 		X  SExpr
 	}
@@ -107,34 +107,34 @@ type ModEntry struct {
 }
 
 type Contract struct {
-	File     string
-	Line     int
-	Pkg      string // package path the contract belongs to
-	Key      string // "Recv.Name" or "Name"
-	Params   []string
-	Results  []string
-	Requires []Clause
-	Ensures  []Clause
-	Modifies []ModEntry
-	HasMod   bool
-	Loops    map[int]*LoopSpec
-	Props    []string
-	Wraps    map[string]bool // wrap-around allowed for assignments to these variables
-	Pure     bool            // no heap effect (deps / trusted)
-	Trusted  bool            // body not verified (deps are always trusted)
-	Abstract bool            // assumed model of an interface method: no impl check
-	CallAsserts []CallAssert // assertions at call sites inside this function (callsite F N requires ...)
-	NoCallbacks bool         // closure bodies this function passes as callbacks are not verified here (stated as unverified)
-	PureCalls bool           // calls of function-typed parameters have no heap effect (assumed)
-	Callbacks []CallbackSpec
-	Inline   bool
-	NoSafety map[string]bool // safety kinds not generated (stated in evidence)
-	Known    map[string]bool
-	Notes    []string
-	Ghost    []GhostStmt
-	Depth    string
-	RecDec   SExpr  // `recursion decreases e`: e (over the parameters) is >= 0 and strictly smaller at every self-call
-	RecDecText string
+	File        string
+	Line        int
+	Pkg         string // package path the contract belongs to
+	Key         string // "Recv.Name" or "Name"
+	Params      []string
+	Results     []string
+	Requires    []Clause
+	Ensures     []Clause
+	Modifies    []ModEntry
+	HasMod      bool
+	Loops       map[int]*LoopSpec
+	Props       []string
+	Wraps       map[string]bool // wrap-around allowed for assignments to these variables
+	Pure        bool            // no heap effect (deps / trusted)
+	Trusted     bool            // body not verified (deps are always trusted)
+	Abstract    bool            // assumed model of an interface method: no impl check
+	CallAsserts []CallAssert    // assertions at call sites inside this function (callsite F N requires ...)
+	NoCallbacks bool            // closure bodies this function passes as callbacks are not verified here (stated as unverified)
+	PureCalls   bool            // calls of function-typed parameters have no heap effect (assumed)
+	Callbacks   []CallbackSpec
+	Inline      bool
+	NoSafety    map[string]bool // safety kinds not generated (stated in evidence)
+	Known       map[string]bool
+	Notes       []string
+	Ghost       []GhostStmt
+	Depth       string
+	RecDec      SExpr // `recursion decreases e`: e (over the parameters) is >= 0 and strictly smaller at every self-call
+	RecDecText  string
 }
 
 // CallAssert: `callsite F N requires [label:] expr` - at the N-th call (in source order) of a function named F inside
@@ -160,24 +160,24 @@ type GhostStmt struct {
 }
 
 type PredDef struct {
-	Name   string
-	Params []SVar
-	Body   SExpr
-	Pkg    string
-	Rec    bool
+	Name     string
+	Params   []SVar
+	Body     SExpr
+	Pkg      string
+	Rec      bool
 	Uninterp bool
-	Ret    string
-	Dec    SExpr
+	Ret      string
+	Dec      SExpr
 }
 
 type FrameDecl struct {
-	Pkg    string
-	Comp   string   // Type.field
-	Funcs  []string // functions allowed to assign
-	Props  []string
-	Line   int
-	File   string
-	IsCall bool // callers K: ... instead of frame
+	Pkg      string
+	Comp     string   // Type.field
+	Funcs    []string // functions allowed to assign
+	Props    []string
+	Line     int
+	File     string
+	IsCall   bool // callers K: ... instead of frame
 	IsArg    bool // argpolicy
 	ArgIndex int
 	ArgLit   string
